@@ -386,6 +386,48 @@ pub proof fn lemma_plain_cands(s: Shape)
 }
 
 // compat on two lists / two tuples, in terms of the named subset predicates
+// (each direction in its own lemma: the two disjuncts are "forall-exists" formulas that feed each other's triggers, so they
+// are never given to the solver positively at the same time)
+proof fn lemma_compat_lists_1(a: Shape, b: Shape)
+    requires a is List, b is List, elems(a->List_0) is Some, elems(b->List_0) is Some,
+        list_sub_from(elems(a->List_0)->Some_0, 0, elems(b->List_0)->Some_0),
+    ensures compat(a, b)
+{
+    let la = elems(a->List_0)->Some_0; let lb = elems(b->List_0)->Some_0;
+    assert forall|i: int| 0 <= i < la.len() implies exists|j: int| 0 <= j < lb.len() && compat(#[trigger] la[i], #[trigger] lb[j]) by {
+        assert(admitted_by_some(la[i], lb));
+    }
+    if la.len() > 0 {
+        // (a seed term lb[j0] for the quantifier instantiation)
+        assert(admitted_by_some(la[0], lb));
+        let j0 = choose|j: int| 0 <= j < lb.len() && compat(la[0], #[trigger] lb[j]);
+    }
+}
+proof fn lemma_compat_lists_2(a: Shape, b: Shape)
+    requires a is List, b is List, elems(a->List_0) is Some, elems(b->List_0) is Some,
+        list_sub_from(elems(b->List_0)->Some_0, 0, elems(a->List_0)->Some_0),
+    ensures compat(a, b)
+{
+    let la = elems(a->List_0)->Some_0; let lb = elems(b->List_0)->Some_0;
+    assert forall|j: int| 0 <= j < lb.len() implies exists|i: int| 0 <= i < la.len() && compat(#[trigger] lb[j], #[trigger] la[i]) by {
+        assert(admitted_by_some(lb[j], la));
+    }
+    if lb.len() > 0 {
+        assert(admitted_by_some(lb[0], la));
+        let i0 = choose|i: int| 0 <= i < la.len() && compat(lb[0], #[trigger] la[i]);
+    }
+}
+proof fn lemma_compat_lists_3(a: Shape, b: Shape)
+    requires a is List, b is List, elems(a->List_0) is Some, elems(b->List_0) is Some, compat(a, b),
+    ensures list_sub_from(elems(a->List_0)->Some_0, 0, elems(b->List_0)->Some_0) || list_sub_from(elems(b->List_0)->Some_0, 0, elems(a->List_0)->Some_0)
+{
+    let la = elems(a->List_0)->Some_0; let lb = elems(b->List_0)->Some_0;
+    if !list_sub_from(la, 0, lb) && !list_sub_from(lb, 0, la) {
+        let k = choose|k: int| 0 <= k < la.len() && !admitted_by_some(#[trigger] la[k], lb);
+        let m = choose|m: int| 0 <= m < lb.len() && !admitted_by_some(#[trigger] lb[m], la);
+        assert(false);
+    }
+}
 pub proof fn lemma_compat_lists(a: Shape, b: Shape)
     requires a is List, b is List
     ensures compat(a, b) == (match (elems(a->List_0), elems(b->List_0)) {
@@ -395,57 +437,59 @@ pub proof fn lemma_compat_lists(a: Shape, b: Shape)
 {
     if elems(a->List_0) is Some && elems(b->List_0) is Some {
         let la = elems(a->List_0)->Some_0; let lb = elems(b->List_0)->Some_0;
-        if list_sub_from(la, 0, lb) {
-            assert forall|i: int| 0 <= i < la.len() implies exists|j: int| 0 <= j < lb.len() && compat(#[trigger] la[i], #[trigger] lb[j]) by {
-                assert(admitted_by_some(la[i], lb));
-            }
-        }
-        if list_sub_from(lb, 0, la) {
-            assert forall|j: int| 0 <= j < lb.len() implies exists|i: int| 0 <= i < la.len() && compat(#[trigger] lb[j], #[trigger] la[i]) by {
-                assert(admitted_by_some(lb[j], la));
-            }
-        }
-        if compat(a, b) && !list_sub_from(la, 0, lb) && !list_sub_from(lb, 0, la) {
-            let k = choose|k: int| 0 <= k < la.len() && !admitted_by_some(#[trigger] la[k], lb);
-            let m = choose|m: int| 0 <= m < lb.len() && !admitted_by_some(#[trigger] lb[m], la);
-            assert(false);
-        }
-        // (seed terms lb[j0] / la[i0] for the quantifier instantiation)
-        if list_sub_from(la, 0, lb) && la.len() > 0 {
-            assert(admitted_by_some(la[0], lb));
-            let j0 = choose|j: int| 0 <= j < lb.len() && compat(la[0], #[trigger] lb[j]);
-        }
-        if list_sub_from(lb, 0, la) && lb.len() > 0 {
-            assert(admitted_by_some(lb[0], la));
-            let i0 = choose|i: int| 0 <= i < la.len() && compat(lb[0], #[trigger] la[i]);
-        }
+        if list_sub_from(la, 0, lb) { lemma_compat_lists_1(a, b); }
+        else if list_sub_from(lb, 0, la) { lemma_compat_lists_2(a, b); }
+        else if compat(a, b) { lemma_compat_lists_3(a, b); }
     } else {
-        assert(elems(a->List_0) is None || elems(b->List_0) is None);
         assert(compat(a, b));
+    }
+}
+proof fn lemma_compat_tuples_1(a: Shape, b: Shape)
+    requires a is Tuple, b is Tuple, tuple_sub_from(a->Tuple_0.val@, 0, b->Tuple_0.val@)
+    ensures compat(a, b)
+{
+    let lf = a->Tuple_0.val@; let rf = b->Tuple_0.val@;
+    assert forall|i: int| 0 <= i < lf.len() implies exists|j: int| 0 <= j < rf.len()
+        && rf[j].0.val@ == lf[i].0.val@ && compat((#[trigger] lf[i]).1, (#[trigger] rf[j]).1) by {
+        assert(field_admitted(lf[i], rf));
+    }
+    if lf.len() > 0 {
+        assert(field_admitted(lf[0], rf));
+        let j0 = choose|j: int| 0 <= j < rf.len() && rf[j].0.val@ == lf[0].0.val@ && compat(lf[0].1, (#[trigger] rf[j]).1);
+    }
+}
+proof fn lemma_compat_tuples_2(a: Shape, b: Shape)
+    requires a is Tuple, b is Tuple, tuple_sub_from(b->Tuple_0.val@, 0, a->Tuple_0.val@)
+    ensures compat(a, b)
+{
+    let lf = a->Tuple_0.val@; let rf = b->Tuple_0.val@;
+    assert forall|j: int| 0 <= j < rf.len() implies exists|i: int| 0 <= i < lf.len()
+        && lf[i].0.val@ == rf[j].0.val@ && compat((#[trigger] rf[j]).1, (#[trigger] lf[i]).1) by {
+        assert(field_admitted(rf[j], lf));
+    }
+    if rf.len() > 0 {
+        assert(field_admitted(rf[0], lf));
+        let i0 = choose|i: int| 0 <= i < lf.len() && lf[i].0.val@ == rf[0].0.val@ && compat(rf[0].1, (#[trigger] lf[i]).1);
+    }
+}
+proof fn lemma_compat_tuples_3(a: Shape, b: Shape)
+    requires a is Tuple, b is Tuple, compat(a, b)
+    ensures tuple_sub_from(a->Tuple_0.val@, 0, b->Tuple_0.val@) || tuple_sub_from(b->Tuple_0.val@, 0, a->Tuple_0.val@)
+{
+    let lf = a->Tuple_0.val@; let rf = b->Tuple_0.val@;
+    if !tuple_sub_from(lf, 0, rf) && !tuple_sub_from(rf, 0, lf) {
+        let k = choose|k: int| 0 <= k < lf.len() && !field_admitted(#[trigger] lf[k], rf);
+        let m = choose|m: int| 0 <= m < rf.len() && !field_admitted(#[trigger] rf[m], lf);
+        assert(false);
     }
 }
 pub proof fn lemma_compat_tuples(a: Shape, b: Shape)
     requires a is Tuple, b is Tuple
     ensures compat(a, b) == (tuple_sub_from(a->Tuple_0.val@, 0, b->Tuple_0.val@) || tuple_sub_from(b->Tuple_0.val@, 0, a->Tuple_0.val@))
 {
-    let lf = a->Tuple_0.val@; let rf = b->Tuple_0.val@;
-    if tuple_sub_from(lf, 0, rf) {
-        assert forall|i: int| 0 <= i < lf.len() implies exists|j: int| 0 <= j < rf.len()
-            && rf[j].0.val@ == lf[i].0.val@ && compat((#[trigger] lf[i]).1, (#[trigger] rf[j]).1) by {
-            assert(field_admitted(lf[i], rf));
-        }
-    }
-    if tuple_sub_from(rf, 0, lf) {
-        assert forall|j: int| 0 <= j < rf.len() implies exists|i: int| 0 <= i < lf.len()
-            && lf[i].0.val@ == rf[j].0.val@ && compat((#[trigger] rf[j]).1, (#[trigger] lf[i]).1) by {
-            assert(field_admitted(rf[j], lf));
-        }
-    }
-    if compat(a, b) && !tuple_sub_from(lf, 0, rf) && !tuple_sub_from(rf, 0, lf) {
-        let k = choose|k: int| 0 <= k < lf.len() && !field_admitted(#[trigger] lf[k], rf);
-        let m = choose|m: int| 0 <= m < rf.len() && !field_admitted(#[trigger] rf[m], lf);
-        assert(false);
-    }
+    if tuple_sub_from(a->Tuple_0.val@, 0, b->Tuple_0.val@) { lemma_compat_tuples_1(a, b); }
+    else if tuple_sub_from(b->Tuple_0.val@, 0, a->Tuple_0.val@) { lemma_compat_tuples_2(a, b); }
+    else if compat(a, b) { lemma_compat_tuples_3(a, b); }
 }
 
 // one direction, using the symmetric statement on strictly smaller pairs
